@@ -10,7 +10,7 @@ cd "$here" || exit 2
 export VERIF_TMP="$here/target/tmp"
 rc=0
 for seed in "$@"; do
-  for job in "std c04-pipeline" "std c05-budget" "std c16-ingest" "std c18-consumer" "std c18-mphf-serial" "std c20-serde" "std c20-export" "std c19-large" "shuttle c19-finish" "shuttle c18-mphf-par"; do
+  for job in "std c04-pipeline" "std c05-budget" "std c16-ingest" "std c18-consumer" "std c18-mphf-serial" "std c20-serde" "std c20-export" "std c19-large" "shuttle c19-finish" "shuttle c18-mphf-par" "shuttle c04-recompress-sched"; do
     set -- $job
     bin="$here/target/$1/release/sim-$1"
     "$bin" "$2" --tier "$tier" --seed "$seed" --part-dir "$here/sweep/parts-$seed" --replay-dir "$here/sweep/replays" --known-findings "$here/known_findings.json" 2>/dev/null | grep -E "^\[|VIOLATION|violation|KNOWN|HARNESS" 
